@@ -496,11 +496,51 @@ theorem steps_count (hs : CountSpec σ cfg R pa px po G) (P : NodeId → Proto S
   rw [ha, ht, h0a, h0t]
   simpa using hr
 
+/-- `G` holds at every request issued through the providers before the first step -/
+def OkPre (G : NodeId → Request S → World S σ → Prop) (cfg : Config S) :
+    List (NodeId × Prog S σ) → World S σ → Prop
+  | [], _ => True
+  | np :: rest, w => OkProg G cfg np.1 np.2 w ∧ OkPre G cfg rest (runProg cfg np.1 np.2 w).1
+
+theorem okPre_of_forall (hG : ∀ n r w, G n r w) (pre : List (NodeId × Prog S σ)) (w : World S σ) :
+    OkPre G cfg pre w := by
+  induction pre generalizing w with
+  | nil => trivial
+  | cons np rest ih => exact ⟨okProg_of_forall hG _ _ _, ih _⟩
+
+theorem grow_pre (hs : CountSpec0 σ cfg R pa px po G) (pre : List (NodeId × Prog S σ)) (w : World S σ)
+    (hok : OkPre G cfg pre w) :
+    Grow R pa px po w (pre.foldl (fun w np => (runProg cfg np.1 np.2 w).1) w) := by
+  induction pre generalizing w with
+  | nil => exact Grow.refl hs.rel w
+  | cons np rest ih => exact (grow_runProg hs np.1 np.2 w hok.1).trans hs.rel (ih _ hok.2)
+
+/-- `steps_count` for a run that starts with requests issued through the providers before the first step -/
+theorem steps_count_pre (hs : CountSpec σ cfg R pa px po G) (P : NodeId → Proto S σ)
+    (pre : List (NodeId × Prog S σ)) (k : Nat) (hpre : OkPre G cfg pre (init cfg P))
+    (hok : OkSteps G cfg P k (initWith cfg P pre)) :
+    R (mA pa px (steps cfg P k (initWith cfg P pre))) (mT po (steps cfg P k (initWith cfg P pre))) := by
+  have h0 := steps_count hs P 0 trivial
+  have g := (grow_pre hs.toCountSpec0 pre (init cfg P) hpre).trans hs.rel
+    (grow_steps hs P k (initWith cfg P pre) hok)
+  obtain ⟨da, dt, ha, ht, hr⟩ := g
+  have h0a : mA pa px (init cfg P) = 0 := by
+    rw [init_eq]
+    split
+    · show (_ :: ([] : List (Ev (EvKind S)))).countP pa + ([] : List (Ev (EvKind S))).countP px = 0
+      rw [countP_cons_bit, (hs.mob _ _).1]; rfl
+    · rfl
+  have h0t : mT po (init cfg P) = 0 := by
+    rw [init_eq]; split <;> rfl
+  rw [ha, ht, h0a, h0t]
+  simpa using hr
+
 /-- the unconditional case: in every reachable world the two measures are `R`-related -/
 theorem reachable_count (hs : CountSpec σ cfg R pa px po NoCond) {P : NodeId → Proto S σ} {w : World S σ}
     (h : Reachable cfg P w) : R (mA pa px w) (mT po w) := by
-  obtain ⟨k, rfl⟩ := h
-  exact steps_count hs P k (okSteps_of_forall (fun _ _ _ => trivial) k _)
+  obtain ⟨pre, k, rfl⟩ := h
+  exact steps_count_pre hs P pre k (okPre_of_forall (fun _ _ _ => trivial) pre _)
+    (okSteps_of_forall (fun _ _ _ => trivial) k _)
 
 end chain
 
@@ -1259,11 +1299,21 @@ theorem init_finv (cfg : Config S) (P : NodeId → Proto S σ) : FInv n name (in
     subst he; cases hid
   · exact ⟨fun _ e he => (by cases he), fun _ _ => rfl⟩
 
+theorem fext_runProg (cfg : Config S) (m : NodeId) (p : Prog S σ) (w : World S σ) :
+    FExt n name w (runProg cfg m p w).1 :=
+  ⟨qext_runProg cfg m p w, fun _ _ t => grow_runProg (spec0_firedT_eq σ cfg n name t) m p w
+    (okProg_of_forall (fun _ _ _ => trivial) _ _ _)⟩
+
+theorem initWith_finv (cfg : Config S) (P : NodeId → Proto S σ) (pre : List (NodeId × Prog S σ)) :
+    FInv n name (initWith cfg P pre) :=
+  initWith_induction (C := fun w => FInv n name w) (init_finv cfg P)
+    (fun m p w h => h.fext (fext_runProg cfg m p w)) pre
+
 theorem reachable_finv {cfg : Config S} (ht : cfg.hasTimer = true) (hdt : 0 ≤ cfg.dt)
     {P : NodeId → Proto S σ} {w : World S σ} (h : Reachable cfg P w) : FInv n name w := by
-  obtain ⟨k, rfl⟩ := h
+  obtain ⟨pre, k, rfl⟩ := h
   suffices ∀ k (w : World S σ), WInv w → PInv w → FInv n name w → FInv n name (steps cfg P k w) from
-    this k _ (init_inv cfg P hdt) (init_pinv cfg P) (init_finv cfg P)
+    this k _ (initWith_inv cfg P hdt pre) (initWith_pinv cfg P pre) (initWith_finv cfg P pre)
   intro k
   induction k with
   | zero => intro w _ _ hf; exact hf
